@@ -32,10 +32,11 @@ ASSUMPTIONS = [
 
 MASK = fedjax.EXAMPLE_MASK_KEY
 
-DTYPES = ['int8', 'int32', 'int64', 'float16', 'float32', 'float64', 'bool',
-          'object']
+DTYPES = ['int8', 'uint8', 'int32', 'int64', 'float16', 'float32', 'float64',
+          'bool', 'object', 'complex64', '>i4', '>f8', 'S5', 'U3',
+          'datetime64[D]']
 TRAILS = [[], [2], [0], [2, 3]]
-PREPS = ['derive', 'cast', 'drop', 'scale']
+PREPS = ['derive', 'cast', 'drop', 'scale', 'inplace']
 
 
 def make_feature(n, dtype, trail, salt):
@@ -50,8 +51,18 @@ def make_feature(n, dtype, trail, salt):
     return flat.reshape(shape)
   if dtype == 'bool':
     return np.broadcast_to(base % 2 == 0, shape).copy()
-  if dtype == 'int8':
-    return np.broadcast_to((base % 100) + 1 + salt, shape).astype(np.int8)
+  if dtype in ('int8', 'uint8'):
+    return np.broadcast_to((base % 100) + 1 + salt, shape).astype(dtype)
+  if dtype in ('S5', 'U3'):
+    # fixed-width strings: never empty, so that padding ('' / b'') is distinguishable
+    width = 5 if dtype == 'S5' else 3
+    flat = np.empty((n * max(size, 0),), dtype=dtype)
+    for j in range(flat.shape[0]):
+      txt = ('%c%d' % (97 + (j + salt) % 26, j))[:width]
+      flat[j] = txt.encode() if dtype == 'S5' else txt
+    return flat.reshape(shape)
+  if dtype == 'datetime64[D]':
+    return (np.broadcast_to(base + 1 + salt, shape).astype('int64')).astype(dtype)
   offs = np.arange(size).reshape((1,) + tuple(trail)) if trail else 0
   return (np.broadcast_to(base + 1, shape) * 4 + offs % 4 + salt).astype(dtype)
 
@@ -71,10 +82,20 @@ def prep_fn(name):
     return lambda x: {**x, 'id_f': x['id'].astype(np.float32)}
   if name == 'drop':
     return lambda x: {k: v for k, v in x.items() if k != 'f1'}
+  if name == 'inplace':
+    # a preprocessing function that updates the dict it is given (the
+    # BatchPreprocessor documents that it guards against exactly this)
+    def inplace(x):
+      x['id_twice'] = x['id'] * 2
+      x['id'] = x['id'] + 0
+      if 'f0' in x and x['f0'].dtype.kind in 'iuf':
+        x['f0'] = x['f0'] + x['f0']
+      return x
+    return inplace
   if name == 'scale':
     def scale(x):
       out = dict(x)
-      if 'f0' in out and out['f0'].dtype.kind in 'if':
+      if 'f0' in out and out['f0'].dtype.kind in 'iuf':
         out['f0'] = out['f0'] * 2
       return out
     return scale
@@ -103,14 +124,14 @@ def raw_digest(raw):
     v = raw[k]
     h.update(k.encode())
     h.update(str(v.dtype).encode() + str(v.shape).encode())
-    h.update(repr(v.tolist()).encode() if v.dtype == object else v.tobytes())
+    h.update(repr(v.tolist()).encode() if v.dtype == object or v.dtype.kind in 'SUM' else v.tobytes())
   return h.hexdigest()
 
 
 def same_array(a, b):
   if a.dtype != b.dtype or a.shape != b.shape:
     return False
-  if a.dtype == object:
+  if a.dtype == object or a.dtype.kind in 'SUM':
     return a.tolist() == b.tolist()
   return a.tobytes() == np.ascontiguousarray(b).tobytes() or bool(
       np.array_equal(a, b, equal_nan=a.dtype.kind in 'fc'))
